@@ -510,6 +510,20 @@ func c07Audit(p *Prog, r *Report, prefixed *ssa.Function) {
 							r.OK("R07b", "varindex "+key, instrPos(in), "dominated by the fact index < len(slice)")
 						case ik == "(len("+sk0+") - 1)" && (rs["0 != len("+sk0+")"] || rs["0 < len("+sk0+")"] || strings.HasPrefix(sk0, "strings.Split(")):
 							r.OK("R07b", "varindex "+key, instrPos(in), "last element of a slice known to be non-empty (length test, or strings.Split, which returns at least one element)")
+						case strings.HasPrefix(sk0, "make(") && strings.HasSuffix(sk0, ")") && func() bool {
+							// slice made with an explicit length L: index < L
+							_, a, ok := parseCallKey(sk0)
+							return ok && len(a) >= 2 && (rs[ik+" < "+a[1]] || strings.HasPrefix(a[1], "len(make(") && func() bool {
+								_, b, ok2 := parseCallKey(strings.TrimSuffix(strings.TrimPrefix(a[1], "len("), ")"))
+								return ok2 && len(b) >= 2 && rs[ik+" < "+b[1]]
+							}())
+						}():
+							r.OK("R07b", "varindex "+key, instrPos(in), "the slice was made with the length the index is compared with")
+						case strings.HasPrefix(ik, "(") && strings.HasSuffix(ik, " - 1)") && func() bool {
+							i0 := strings.TrimSuffix(strings.TrimPrefix(ik, "("), " - 1)")
+							return rs[i0+" < len("+sk0+")"] && (rs["0 < "+i0] || rs["0 != "+i0] || rs["1 <= "+i0])
+						}():
+							r.OK("R07b", "varindex "+key, instrPos(in), "x[i-1] under the facts 0 < i and i < len(x)")
 						default:
 							if why := structuralIndexBound(p, f, x); why != "" {
 								r.OK("R07b", "varindex "+key, instrPos(in), why)
